@@ -49,7 +49,9 @@ BOUNDS = {
              'fixed per condition, second chosen by a symbolic selector among %d lazy operators) len <= 2, a '
              'VERIF_SEED-rotated third of the first operators',
     'thorough': 'same with len($c) <= 3 (<= 4 for functions without lambda), up to two nulls, every lambda of the '
-                'family, every function also through YAQL text, all pipeline shards, 3-operator pipelines len <= 2'}
+                'family member (diagonal combinations), every function also through YAQL text (len <= 2), all 2-operator '
+                'pipeline pairs (call API) and a sixth of them through YAQL text, 3-operator pipelines (every second '
+                'first operator, second and third among where/skip/distinct/insert) len <= 1'}
 OUTSIDE = ['nested collections deeper than one level', 'non-integer elements other than null (strings, floats)',
            'generate/generateMany beyond 5 produced items', 'negative counts of skip/take/slice and zero slice length '
            '(undocumented: surface ValueError from islice)', 'negative list repetition counts, negative splitAt index',
@@ -143,11 +145,9 @@ def bounds(c, d, np, np2, i, j, k, r, v, vn):
             return False
     elif np != -1 or np2 != -1:
         return False
+    # (arguments a case does not use are never touched by the harness: left unconstrained, no branching on them)
     for name, val in (('i', i), ('j', j)):
-        if name in uses:
-            if 'c' in uses and not cs['raw'] and not (-n - MARGIN <= val <= n + MARGIN):
-                return False
-        elif val != 0:
+        if name in uses and 'c' in uses and not cs['raw'] and not (-n - MARGIN <= val <= n + MARGIN):
             return False
     if cs['small']:
         for x in c:
@@ -156,11 +156,7 @@ def bounds(c, d, np, np2, i, j, k, r, v, vn):
         for name, val in (('i', i), ('k', k), ('r', r)):
             if name in uses and not (-1 <= val <= EMAX + 1):
                 return False
-    if 'k' not in uses and k != 0:
-        return False
-    if 'r' not in uses and r != 0:
-        return False
-    if 'v' not in uses and (vn or v != 0):
+    if 'v' not in uses and vn:
         return False
     e = mkenv(c, d, np, np2, i, j, k, r, v, vn)
     for lid in LAMSEL.values():
@@ -715,7 +711,7 @@ def conditions(tier, seed):
                                   'consumed once; call API' % (OPS[s1][0], [OPS[x][0] for x in sixth])})
     else:
         thirds = [list(range(t, NOPS, 3)) for t in range(3)]
-        small = [0, 1, 2, 3, 4, 6, 9, 12]      # where select skip take distinct append insert orderBy
+        small = [0, 2, 4, 9]                   # where skip distinct insert
         for s1 in range(NOPS):
             for tn, third in enumerate(thirds):
                 out.append({'name': 'pipe2[%s|third%d|api]' % (OPS[s1][0], tn), 'func': 'h_pipe', 'timeout': 900,
@@ -727,6 +723,8 @@ def conditions(tier, seed):
                         'param': {'s1': s1, 'depth': 2, 'mode': 'text', 'n': 2, 's2set': sixth, 'imargin': 1},
                         'bounds': '$c.%s.<op2>: op2 by symbolic selector among %s; len($c)<=2; YAQL text built from '
                                   'the selectors' % (OPS[s1][0], [OPS[x][0] for x in sixth])})
+            if s1 % 2 == 1:
+                continue
             out.append({'name': 'pipe3[%s|*|*]' % OPS[s1][0], 'func': 'h_pipe', 'timeout': 900,
                         'param': {'s1': s1, 'depth': 3, 'mode': 'api', 'n': 1, 's2set': small, 's3set': small,
                                   'imargin': 1},
